@@ -436,48 +436,11 @@ def rowsExplained (c : Case) (cc ac : List Nat) (spec out : List Row) : Option (
             if cc.any (fun i => s.getD i .null == .int 0) then (go ss outs).map ("count-null-group" :: ·) else none
   go spec out
 
-/-- `groupby-valrows-streamed` (C02): two or more grouping columns that cannot be bit-packed into one i64 key (a string
-    column among them, or integer ranges too wide) are grouped through `ValRows`; the executor then runs the non-streaming
-    `ValRowsPack` / the hash grouping on the output of a streaming stage without a block buffer in between, so a
-    partition longer than `batch_size` is grouped chunk by chunk with aggregates reading the wrong chunk. -/
-def bitsFor (n : Nat) : Nat := (List.range 65).find? (fun b => n < 2 ^ b) |>.getD 65
-
-/-- strings.rs: a string column of a partition is stored packed (not dictionary encoded, hence not bit-packable) when the
-    number of distinct strings (a NULL slot holds "") reaches `len / DICTIONARY_RATIO` (= len / 2, integer division, ≥ 1). -/
-def packedStringCol (part : List Row) (k : Nat) : Bool :=
-  let strs := part.map fun r => match r.getD k .null with | .str s => s | _ => []
-  let isStr := part.any fun r => match r.getD k .null with | .str _ => true | _ => false
-  isStr && part.length / 2 ≥ 1 && strs.eraseDups.length ≥ part.length / 2
-
-def wideIntKeys (part : List Row) (keys : List Nat) : Bool :=
-  (keys.map fun k =>
-      let vs := part.filterMap (fun r => match r.getD k .null with | .int v => some v | _ => none)
-      match vs with
-      | [] => 1
-      | v :: t => bitsFor ((t.foldl max v - t.foldl min v).toNat + 2)).sum > 63
-
-/-- a key value beyond ±2^62: the planner's range arithmetic (`max - min`, `-min + 1`) does not fit i64 and (since /repo
-    2e73ee3) the key falls back to hash / value-row grouping instead of panicking -/
-def extremeIntKey (part : List Row) (k : Nat) : Bool :=
-  part.any fun r => match r.getD k .null with
-    | .int v => v ≤ -4611686018427387904 || v ≥ 4611686018427387904
-    | _ => false
-
-def intRangeWide (part : List Row) (k : Nat) : Bool :=
-  let vs := part.filterMap (fun r => match r.getD k .null with | .int v => some v | _ => none)
-  match vs with
-  | [] => false
-  | v :: t => t.foldl max v - t.foldl min v + 2 ≥ 65536
-
-/-- `groupby-valrows-streamed` (C02/C04), what is left of it after /repo 3cc8efd, b5a9fe3, 5275058: some partition at least as
-    long as `batch_size` (the executor then streams it) is grouped through VALUE ROWS — two or more grouping columns that
-    cannot be bit-packed into one i64 (a packed string column among them, > 63 key bits, or a key beyond ±2^62).
-    The single-key hash grouping (packed string / wide-range integer key) is repaired and no longer covered. -/
-def valRowsStreamed (c : Case) (r : Real) : Bool :=
-  let keys := keyCols c
-  (splitRows r.split c.rows).any fun p =>
-    p.length ≥ r.batchSize &&
-      (keys.length ≥ 2 && (keys.any (packedStringCol p) || wideIntKeys p keys || keys.any (extremeIntKey p)))
+/-! (`groupby-valrows-streamed` (C02/C04) — grouped queries over a partition of at least `batch_size` rows (hash grouping on a packed
+    string / wide-range integer key, value-row grouping on several keys): duplicate groups, NULL keys after the first chunk, index
+    panics — was repaired in /repo 3cc8efd (no block buffer for a streaming consumer in a later stage), b5a9fe3
+    (HashMapGroupingValRows run once per chunk), 5275058 (UnfuseNullsI64 block output), 3044fa3 (ValToNullableInt chunk-relative
+    presence bits); its classifier `valRowsStreamed` has been removed, the witnesses stay in the corpus.) -/
 
 /-- `groupby-compressed-key-type` (C04/C02): with two or more bit-packed grouping columns the decoded key of a column whose
     data section is pco/lz4-compressed is cast to the width of the COMPRESSED section (u8) instead of the decoded
@@ -530,7 +493,6 @@ def keysTruncatedAcross (c : Case) (spec out : List Row) : Bool :=
 def classifyGrp (c : Case) (spec : Res (List Row)) (r : Real) : String :=
   let c07 := classifyObs r.obs
   if c07 ≠ "" then c07 else
-  if c.kind = .grp && valRowsStreamed c r then "groupby-valrows-streamed" else
   let may := mayOverflow i2fNative c.sel c.pred c.rows
   match spec, parseOut r.out with
   | .ok s, some out =>
